@@ -84,6 +84,16 @@ def run(chk):
                 cases.append(((op, lo, ro_), bdoc))
         for lo in opnds[:9]:
             cases.append((("collect", ("pipe", ("index", ("getkey", "l"), None), (op, lo, ("index", ("getkey", "e"), None)))), bdoc))
+    # directed: contains compares non-string scalars by value, strings by substring, at every nesting level
+    cdoc = {"n": [8080, 443], "k": 8080, "neg": -5, "s": ["foobar", "x"], "p": [{"port": 8080, "name": "web"}, {"port": 443, "name": "tls"}],
+            "b": [True], "mix": [12, "12", 3], "t": "8080"}
+    cargs = [L(80), L(8080), L(5), L(-5), L(1), L(12), L("80"), L("foo"), L("12"), L(True), L(None),
+             ("collect", L(80)), ("collect", L(8080)), ("collect", L(443)), ("collect", L("foo")), ("collect", L("12")), ("collect", L(1)),
+             ("collect", ("object", [("port", L(80))])), ("collect", ("object", [("port", L(8080))])), ("object", [("port", L(80))]), ("collect", L(True))]
+    for key in cdoc:
+        for a in cargs:
+            cases.append((("pipe", ("getkey", key), ("contains", a)), cdoc))
+            cases.append((("collect", ("pipe", ("pipe", ("getkey", key), ("index", ("self",), None)), ("select", ("contains", a)))), cdoc))
     impl, mism, err = run_cases(chk, cases, "c01_cases")
     stats = collections.Counter()
     opsh = collections.Counter()
